@@ -6,7 +6,7 @@
    (promotions: pieces_[Pawn] vs pieces_[move.piece()]; king-side castling: castle_rooks_from_ vs move.to());
    every move the generators emit satisfies it (MovegenFacts.legal_moves_fields_ok).  Statements only. *)
 From Coq Require Import NArith List Bool.
-From LC Require Import Bits Types BitboardModel MoveModel ZobristModel PositionModel MovegenModel MakeModel MakeFacts MovegenFacts.
+From LC Require Import Bits Types BitboardModel MoveModel ZobristModel PositionModel MovegenModel MakeModel MakeFacts MovegenFacts ValidExact.
 Import ListNotations.
 Local Open Scope N_scope.
 
@@ -25,6 +25,17 @@ Theorem C03_generated_moves_ok : forall p m, In m (legal_moves p) -> move_fields
 Proof. exact legal_moves_fields_ok. Qed.
 Theorem C03_undo_generated : forall K p m, In m (legal_moves p) -> undomove (makemove K p m) = p.
 Proof. exact (fun K p m H => undo_make K p m (legal_moves_fields_ok p m H)). Qed.
+
+(* run level, on the property's domain: in every history of generated moves, null moves (out of check) and undos from a
+   start position of the domain, each undo returns EXACTLY the earlier position (whole record, history included), and
+   when everything is undone the start position is back *)
+Theorem C03_history_undo_exact : forall K dfrc p0 p q st, dom K dfrc p0 -> hist K p0 p ((q, ByMove) :: st) -> undomove p = q /\ hist K p0 q st.
+Proof. exact hist_undo_exact. Qed.
+Theorem C03_history_undonull_exact : forall K dfrc p0 p q st, dom K dfrc p0 -> hist K p0 p ((q, ByNull) :: st) -> undonull p = q /\ hist K p0 q st.
+Proof. exact hist_undonull_exact. Qed.
+Theorem C03_all_undone : forall K dfrc p0 p, dom K dfrc p0 -> hist K p0 p [] -> p = p0.
+Proof. exact hist_all_undone. Qed.
+Print Assumptions C03_history_undo_exact. Print Assumptions C03_history_undonull_exact. Print Assumptions C03_all_undone.
 
 Print Assumptions C03_undo_make. Print Assumptions C03_undonull_makenull. Print Assumptions C03_balanced_histories.
 Print Assumptions C03_generated_moves_ok. Print Assumptions C03_undo_generated.
